@@ -946,7 +946,35 @@ func scenBlockedFirst(c *Ctx) *eCase {
 	return ec
 }
 
-var scenarios = []func(*Ctx) *eCase{scenNewlineLast, scenDeep, scenUtf8, scenUtf8, scenCroak, scenLang, scenReload, scenBlanks, scenWild, scenCatchRel, scenEnds, scenSizes, scenRefused, scenCatchHub, scenSameLen, scenReloadEnd, scenBlockedFirst}
+// one node with two HALTs and no move in between: what the first part declared for the renderer (lateral navigation entries,
+// a menu sink, mapped symbols) must be gone when the second part renders, exactly as in an engine created for that request
+func scenTwoHalts(c *Ctx) *eCase {
+	r := c.Rng
+	ec := newScenario(0)
+	ec.out = []int{40, 48, 36, 60}[r.Intn(4)]
+	first := []GInstr{{Op: "LOAD", A: "big", N: 0}, {Op: "MAP", A: "big"}, {Op: "MNEXT", A: "fwd", B: "8"}, {Op: "MPREV", A: "bck", B: "9"}}
+	if r.Intn(3) == 0 {
+		first = append(first, GInstr{Op: "MOUT", A: "quit", B: "0"})
+	}
+	second := []GInstr{{Op: "MAP", A: "big"}}
+	switch r.Intn(3) {
+	case 0:
+		second = append(second, GInstr{Op: "MNEXT", A: "more", B: "8"})
+	case 1:
+		second = append(second, GInstr{Op: "MOUT", A: "quit", B: "0"})
+	}
+	prog := append(append([]GInstr{}, first...), GInstr{Op: "HALT"})
+	prog = append(append(prog, second...), GInstr{Op: "HALT"}, GInstr{Op: "INCMP", A: ">", B: "8"}, GInstr{Op: "INCMP", A: "<", B: "9"}, GInstr{Op: "INCMP", A: "bye", B: "0"})
+	ec.node("root", "list {{.big}}", prog...)
+	ec.node("bye", "Bye", GInstr{Op: "HALT"})
+	ec.catchNode()
+	rows := []string{"alpha", "bravo", "charlie", "delta", "echo", "foxtrot", "golf", "hotel", "india", "juliet"}
+	ec.exts = append(ec.exts, extRule{sym: "big", callIdx: -1, content: strings.Join(rows[:6+r.Intn(5)], "\n")})
+	ec.inputs = ins("", []string{"1", "x", "8"}[r.Intn(3)], "8", []string{"8", "9", "0"}[r.Intn(3)], "9")
+	return ec
+}
+
+var scenarios = []func(*Ctx) *eCase{scenNewlineLast, scenDeep, scenUtf8, scenUtf8, scenCroak, scenLang, scenReload, scenBlanks, scenWild, scenCatchRel, scenEnds, scenSizes, scenRefused, scenCatchHub, scenSameLen, scenReloadEnd, scenBlockedFirst, scenTwoHalts}
 
 func genScenarioCases(c *Ctx, n int) []string {
 	var ls []string
